@@ -317,6 +317,9 @@ ArgVariants == {
   Mv("container", "put", 4, "token", "alphabet", F, H, SN),                      \* non-empty session token
   Mv("container", "put", 4, "alphaowner", "alphabet", F, H, SN),                 \* the owner is an Alphabet node (member 0)
   Mv("container", "put", 5, "nometa", "alphabet", F, H, SN),
+  Mv("container", "put", 4, "again", "alphabet", F, H, SN),                      \* the container is registered already
+  Mv("container", "put", 5, "again", "alphabet", F, H, SN),                      \* ... and the meta flag is asked for now
+  Mv("container", "putNamed", 6, "againnoname", "alphabet", F, H, SN),
   Mv("container", "putNamed", 6, "noname", "alphabet", F, H, SN),                \* name = zone = ""
   Mv("container", "putNamed", 6, "zone", "alphabet", F, H, SN),                  \* explicit zone
   Mv("container", "delete", 3, "token", "alphabet", F, H, SN),
